@@ -310,6 +310,8 @@ func (e *Env) Build(n *Node) templ.Component {
 		return corpus.NoSlot(n.S)
 	case "passdown":
 		return corpus.PassDown(n.S, e.kid(n, 0))
+	case "passdowntwice":
+		return corpus.PassDownTwice(n.S, e.kid(n, 0))
 	case "slotaround":
 		return corpus.SlotAround(n.S, e.kid(n, 0), e.kid(n, 1))
 	case "block":
